@@ -49,6 +49,9 @@ class GSym(LSym):
             return lambda it, a, n: it.put(a[0], it.get(a[1]) + (it.get(a[2]) if sign > 0 else -it.get(a[2])), size)
         I.append((r'^' + CM + r'<impl core::ops::arith::Add<&' + CM + r'\w+NielsPoint> for &' + EP + r'>::add$', binop(1, 4 * self.fs)))
         I.append((r'^' + CM + r'<impl core::ops::arith::Sub<&' + CM + r'\w+NielsPoint> for &' + EP + r'>::sub$', binop(-1, 4 * self.fs)))
+        # the same two impls as the nightly (v0) demangling prints them
+        I.append((r'^<&' + EP + r' as core::ops::arith::Add<&' + CM + r'\w+NielsPoint>>::add$', binop(1, 4 * self.fs)))
+        I.append((r'^<&' + EP + r' as core::ops::arith::Sub<&' + CM + r'\w+NielsPoint>>::sub$', binop(-1, 4 * self.fs)))
         I.append((r'^<&' + EP + r' as core::ops::arith::Add>::add$', binop(1, 4 * self.fs)))
         I.append((r'^<&' + EP + r' as core::ops::arith::Sub>::sub$', binop(-1, 4 * self.fs)))
         I.append((r'^<&' + EP + r' as core::ops::arith::Neg>::neg$', lambda it, a, n: it.put(a[0], -it.get(a[1]), 4 * self.fs)))
@@ -72,12 +75,13 @@ class GSym(LSym):
         # ---- vector backends (AVX2 / IFMA): ExtendedPoint and CachedPoint are 160-byte objects holding the same group element;
         # the target-feature macro wraps every method as  outer -> __Impl_x__::_impl_x ; whichever is reached first is intercepted
         VE = r'curve25519_dalek::backend::vector::(avx2|ifma)::edwards::'
-        EXT = VE + r'ExtendedPoint'; CAC = VE + r'CachedPoint'
+        EXT = r'<?' + VE + r'ExtendedPoint>?'; CAC = r'<?' + VE + r'CachedPoint>?'      # <Type>::method in the nightly (v0) demangling
         T_ = r'(::__Impl_\w+__>::_impl_\w+)?$'
         S4 = 4 * self.fs
         cp = lambda it, a, n: it.put(a[0], it.get(a[1]), S4)
         I.append((EXT + r' as core::convert::From<curve25519_dalek::edwards::EdwardsPoint>>::from' + T_, cp))
         I.append((r'impl core::convert::From<' + EXT + r'> for curve25519_dalek::edwards::EdwardsPoint>::from' + T_, cp))
+        I.append((r'curve25519_dalek::edwards::EdwardsPoint as core::convert::From<' + EXT + r'>>::from' + T_, cp))
         I.append((CAC + r' as core::convert::From<' + EXT + r'>>::from' + T_, cp))
         I.append((EXT + r'::double' + T_, lambda it, a, n: it.put(a[0], it.get(a[1]).scale(2), S4)))
         def vpow2(it, a, n):
@@ -89,12 +93,13 @@ class GSym(LSym):
         I.append((EXT + r' as core::ops::arith::Sub<&' + CAC + r'>>::sub' + T_, binop(-1, S4)))
         I.append((CAC + r' as core::ops::arith::Neg>::neg' + T_, lambda it, a, n: it.put(a[0], -it.get(a[1]), S4)))
         I.append((r'(' + EXT + r'|' + CAC + r') as (curve25519_dalek::traits::Identity>::identity|core::default::Default>::default)' + T_, lambda it, a, n: it.put(a[0], G(), S4)))
-        I.append((r'^curve25519_dalek::window::LookupTable(Radix\d+)?<T>::select$', lambda it, a, n: it.table_select(a, n)))
-        I.append((r'^curve25519_dalek::window::NafLookupTable(5|8)<T>::select$', lambda it, a, n: it.naf_select(a, n)))
+        I.append((r'^<?curve25519_dalek::window::LookupTable(Radix\d+)?<[^<>]*(<[^<>]*>)?[^<>]*>>?::select$', lambda it, a, n: it.table_select(a, n)))
+        I.append((r'^<?curve25519_dalek::window::NafLookupTable(5|8)<[^<>]*(<[^<>]*>)?[^<>]*>>?::select$', lambda it, a, n: it.naf_select(a, n)))
         I.append((r'^curve25519_dalek::scalar::Scalar::as_radix_16$', lambda it, a, n: it.radix16(a)))
         I.append((r'^curve25519_dalek::scalar::Scalar::as_radix_2w$', lambda it, a, n: it.radix2w(a)))
         I.append((r'^curve25519_dalek::scalar::Scalar::non_adjacent_form$', lambda it, a, n: it.naf(a)))
         I.append((r'^core::cmp::impls::<impl core::cmp::Ord for i(8|16)>::cmp$', lambda it, a, n: it.ord_cmp(a, n)))
+        I.append((r'^<i(8|16) as core::cmp::Ord>::cmp$', lambda it, a, n: it.ord_cmp(a, n)))
 
     def count(self, k): self.kcalls[k] = self.kcalls.get(k, 0) + 1
     # ------------------------------------------------------------------ data-dependent 3-way branches on a digit's sign
